@@ -113,3 +113,41 @@ Definition run_lifecycle (x : sx) : sx :=
   | SL [p; hr; SL es] => sx_side (runs (params_of_sx p) (sx_bool hr) (map entry_of_sx es) fresh)
   | _ => bad_input
   end.
+
+(* ---- the requests of one side (second sentence of the property) ----
+   A side issues requests (numbered by the caller of this model), receives replies to them, ends in any of the ways above, and its
+   threads wait for results. [pend]: requests registered and not yet answered; [got]: requests whose reply was dispatched (a value or
+   the peer's exception - what the peer sent); [failed]: requests that could not be sent. What a waiter gets is a function of this
+   state: the value if the reply was dispatched; otherwise EOFError if the side has ended or its channel is closed (serve() on a
+   closed channel raises EOFError - generated facts below); otherwise it keeps waiting (for traffic or its own timeout). *)
+Record rside := { base : side; pend : list nat; got : list nat; failed : list nat }.
+Definition rfresh : rside := {| base := fresh; pend := []; got := []; failed := [] |}.
+Inductive rentry :=
+| RIssue (id : nat) (w : wres)     (* _async_request for a new request; w: what the write does on an open channel *)
+| RReply (id : nat)                (* the reply (or exception reply) to id is dispatched *)
+| RBase (e : entry).               (* any of the ways a side ends (or close() again, ...) *)
+Fixpoint remove_nat (x : nat) (l : list nat) : list nat :=
+  match l with [] => [] | y :: t => if Nat.eqb x y then remove_nat x t else y :: remove_nat x t end.
+Definition rstep (P : lparams) (hr : bool) (refuses_closed : bool) (e : rentry) (s : rside) : rside :=
+  match e with
+  | RIssue id w =>
+      (* a closed channel: refused up front (repaired tree) or the write fails at once - either way EOFError and nothing stays registered *)
+      if negb (chan_open (base s)) then {| base := base s; pend := pend s; got := got s; failed := id :: failed s |}
+      else match w with
+           | WOk => {| base := base s; pend := id :: pend s; got := got s; failed := failed s |}
+           | _ => {| base := base s; pend := pend s; got := got s; failed := id :: failed s |}     (* registered, send raised, popped again *)
+           end
+  | RReply id =>
+      if existsb (Nat.eqb id) (pend s) then {| base := base s; pend := remove_nat id (pend s); got := id :: got s; failed := failed s |} else s
+  | RBase e0 =>
+      let b := fst (step P hr e0 (base s)) in
+      (* _cleanup clears the callback table *)
+      {| base := b; pend := if has_root b then pend s else []; got := got s; failed := failed s |}
+  end.
+Definition rruns (P : lparams) (hr rc : bool) (es : list rentry) (s : rside) : rside := fold_left (fun s e => rstep P hr rc e s) es s.
+Inductive wait_result := WValue | WEofError | WKeepsWaiting.
+Definition wait_outcome (s : rside) (id : nat) : wait_result :=
+  if existsb (Nat.eqb id) (got s) then WValue
+  else if existsb (Nat.eqb id) (failed s) then WEofError
+  else if closed (base s) || negb (chan_open (base s)) then WEofError
+  else WKeepsWaiting.
